@@ -28,7 +28,7 @@ LEVEL = "exploration"
 HASH_VARIANTS = 1
 RUNS = {"quick": 640, "thorough": 30000}
 WALL_LIMIT = {"quick": 1500, "thorough": 5 * 3600}
-PROBES = ["same_column_at_two_levels", "non_nested_entity_sets_in_chain", "decoy_sidecar", "excluded_dir_with_files", "listing_permuted",
+PROBES = ["dataset_below_excluded_named_ancestor", "same_column_at_two_levels", "non_nested_entity_sets_in_chain", "decoy_sidecar", "excluded_dir_with_files", "listing_permuted",
           "orders_compared", "cli_exit_checked", "cli_nonzero_expected", "sidecar_at_root", "sidecar_at_sub", "sidecar_at_ses",
           "sidecar_at_leaf", "files_with_issues", "chain_length_3plus", "excluded_dir_below_top_level",
           "entity_value_prefix_of_another"]
@@ -206,8 +206,24 @@ def generate(run_index, seed, tier):
         cli_opts += ["-o", "<scratch>/cli-output.txt"]
     if g.chance(0.3):
         cli_opts += ["-f", g.pick(["json", "json_pp", "text"])]
+    if files and n_runs > 1 and g.chance(0.3):
+        # a sidecar whose run index is spelled with other zero padding than the events file names: not the same value
+        f0 = g.pick([f for f in files if "_run-" in f["path"]])
+        base = os.path.basename(f0["path"]).replace("_events.tsv", "_events.json")
+        import re as _re
+        m = _re.search(r"_run-(\d+)", base)
+        other = ("0" + m.group(1)) if not m.group(1).startswith("0") else m.group(1).lstrip("0")
+        dir0 = os.path.dirname(f0["path"])
+        # (only where no other JSON lives in that directory: two sidecars of one directory that both apply to the decoy
+        # itself are outside the BIDS precondition)
+        if other and other != m.group(1) and not any(os.path.dirname(x["path"]) == dir0 for x in sidecars + decoys
+                                                     if x["path"].endswith(".json")):
+            decoys.append({"path": os.path.dirname(f0["path"]) + "/" + base.replace("_run-" + m.group(1), "_run-" + other),
+                           "content": {"trial_type": {"HED": {"a": "Redd", "b": "Grren"}}}})
     return {"files": files, "sidecars": sidecars, "decoys": decoys, "perms": [g.randrange(1 << 30) for _ in range(g.randint(1, 3))],
-            "warnings": g.chance(0.5), "cli_opts": cli_opts}
+            "warnings": g.chance(0.5), "cli_opts": cli_opts,
+            # where the dataset lives: directly in scratch, or below directories named like the excluded ones
+            "root_under": g.pick(["", "", "derivatives/pipeline", "code/sourcedata"])}
 
 
 def shrink(sc):
@@ -313,7 +329,10 @@ def execute(sc, script=None):
     def viol(clause, detail, sig):
         violations.append(Violation(clause, detail.replace(W["base"], "<scratch>"), sig).record(PROP))
 
-    root = os.path.join(W["base"], "ds")
+    shutil.rmtree(os.path.join(W["base"], "up"), ignore_errors=True)
+    root = os.path.join(W["base"], "up", sc["root_under"], "ds") if sc.get("root_under") else os.path.join(W["base"], "ds")
+    if sc.get("root_under"):
+        probe("dataset_below_excluded_named_ancestor")
     _build_tree(root, sc)
     json_paths = [s["path"] for s in sc["sidecars"]] + [d["path"] for d in sc["decoys"] if d["path"].endswith(".json")]
     contents = {s["path"]: s["content"] for s in sc["sidecars"]}
@@ -393,6 +412,7 @@ def execute(sc, script=None):
                 applied[rel] = copy.deepcopy(obj.sidecar.contents.loaded_dict) if obj.sidecar is not None else None
             out["applied"] = applied
             out["issues"] = ds.validate(check_for_warnings=warn)
+            out["issues_again"] = ds.validate(check_for_warnings=warn)      # the same object is asked a second time
             return True
         with fs:
             p = sim.run_one("bids", fn)
@@ -404,6 +424,11 @@ def execute(sc, script=None):
             break
         applied, issues = out["applied"], out["issues"]
         got = sorted(str(_loc(i)) for i in issues)
+        again = sorted(str(_loc(i)) for i in out["issues_again"])
+        if again != got:
+            viol("dataset-issues", "a second validate() on the same BidsDataset gives other issues: only first %s, only second %s"
+                 % ([x for x in got if x not in again][:5], [x for x in again if x not in got][:5]), "second-validate-differs")
+            break
         trace.append([oi, sorted(applied), got])
         # (1) applied sidecar = reference merge
         if sorted(applied) != sorted(f["path"] for f in sc["files"]):
